@@ -328,7 +328,12 @@ def run(out, tier):
         ln = ev(model, L)
         p0 = ev(model, P)
         tail = [ev(model, z3.Select(B, z3.BitVecVal(i, 64))) for i in range(p0, min(ln, p0 + 40))]
-        return native.scenario(out, "disassemble_roundtrip", {"hex": bytes(tail).hex() or "00"})
+        confirmed, rep = native.scenario(out, "disassemble_roundtrip", {"hex": bytes(tail).hex() or "00"})
+        if not confirmed:
+            # the model describes a state in the middle of an input; compare whole inputs with a reference disassembler:
+            # the model's tail and every "prefix, PUSHn, k of its n immediates" program
+            confirmed, rep = native.scenario(out, "disassemble_reference", {"hex": bytes(tail).hex() or "00"})
+        return confirmed, rep
     verdict(out, pr, "D2.step_and_epilogue", paths, post_step, pre=pre, kinds=("cut", "return", "panic", "unreachable", "loop-bound"),
             replay=replay, key="disassemble-rejects-or-garbles-input",
             what="from any state satisfying I, consuming one byte re-establishes I with the appended entries re-encoding the consumed bytes "
